@@ -12,6 +12,7 @@ use crate::{
 };
 
 #[derive(Debug)]
+#[cfg_attr(feature = "verif", derive(Clone))]
 pub struct SendChannelUnreliable {
     channel_id: u8,
     unreliable_messages: VecDeque<Bytes>,
@@ -21,6 +22,7 @@ pub struct SendChannelUnreliable {
 }
 
 #[derive(Debug)]
+#[cfg_attr(feature = "verif", derive(Clone))]
 pub struct ReceiveChannelUnreliable {
     channel_id: u8,
     messages: VecDeque<Bytes>,
@@ -221,6 +223,47 @@ impl ReceiveChannelUnreliable {
         };
 
         None
+    }
+}
+
+#[cfg(feature = "verif")]
+impl SendChannelUnreliable {
+    pub(crate) fn verif_snapshot(&self) -> crate::verif::SendUnreliableSnapshot {
+        crate::verif::SendUnreliableSnapshot {
+            channel_id: self.channel_id,
+            sliced_message_id: self.sliced_message_id,
+            memory_usage_bytes: self.memory_usage_bytes,
+            max_memory_usage_bytes: self.max_memory_usage_bytes,
+            queued_lens: self.unreliable_messages.iter().map(|m| m.len()).collect(),
+        }
+    }
+
+    pub(crate) fn verif_set_sliced_message_id(&mut self, message_id: u64) {
+        self.sliced_message_id = message_id;
+    }
+}
+
+#[cfg(feature = "verif")]
+impl ReceiveChannelUnreliable {
+    pub(crate) fn verif_snapshot(&self) -> crate::verif::ReceiveUnreliableSnapshot {
+        use crate::verif::*;
+        let partial = self
+            .slices
+            .iter()
+            .map(|(&message_id, c)| PartialSnapshot {
+                message_id,
+                num_slices: c.num_slices,
+                received: c.verif_received(),
+                last_received: self.slices_last_received.get(&message_id).copied(),
+            })
+            .collect();
+        ReceiveUnreliableSnapshot {
+            channel_id: self.channel_id,
+            memory_usage_bytes: self.memory_usage_bytes,
+            max_memory_usage_bytes: self.max_memory_usage_bytes,
+            queued_lens: self.messages.iter().map(|m| m.len()).collect(),
+            partial,
+        }
     }
 }
 
